@@ -208,6 +208,12 @@ def make_calc(style, adesc):
         from ase.calculators.lj import LennardJones
 
         return LennardJones(sigma=2.0, epsilon=0.01, rc=4.0, smooth=True), None
+    if style == "fast":
+        # exact-equality cache (no 1e-15 tolerance): two-run comparisons stay bitwise even when a move
+        # changes positions only at rounding level (whole-system shift undone by FixCom, rotation of one atom)
+        from vlib.calcs import FastCalc
+
+        return FastCalc("pair", params), params
     return ModelCalc("pair", params, style=style), params
 
 
@@ -267,7 +273,7 @@ def build_simulation(scn, logfile=None, criteria="scripted", extra_kw=None):
             kwm = {}
             if scn.get("table"):
                 kwm = dict(zip(("interval", "probability", "minimum_count"), scn["table"][i]))
-            mc.add_move(mv, criteria=cr, name=f"e{i}", **kwm)
+            mc.add_move(mv, criteria=cr, name=(scn["names"][i] if scn.get("names") else f"e{i}"), **kwm)
             crits.append(cr)
         if "alias_of" in scn:
             # the same move object listed under a second name
